@@ -595,6 +595,13 @@ def main():
         ("bare-array", A, arr3, True),
         ("bare-array-variadic", Q23, z(2, 3), True),
         ("bare-array-q-and-plain", ARR("?n n"), z(3, 2), True),
+        # a broadcastable '?' axis: size ONE takes the '#' shortcut -- the label must be looked up on that path too
+        ("bare-array-broadcastable-size-one", ARR("#?n"), z(1), True),
+        ("bare-array-broadcastable-size-one", ARR("#?n 3"), z(1, 3), True),
+        ("bare-array-broadcastable-size-one", ARR("3 #?n"), z(3, 1), True),
+        ("bare-array-broadcastable", ARR("#?n"), z(3), True),
+        ("bare-array-broadcastable-variadic-size-one", ARR("*#?n"), z(1, 1), True),
+        ("structureless-pytree-broadcastable-size-one", PT(ARR("#?n")), (z(1), z(1)), True),
         ("bare-union", UNION(A, INT), arr3, False),
         ("bare-tuple", TUPLE(A, INT), (arr3, 7), False),
         ("structureless-pytree", PT(A), arr3, True),
